@@ -1419,10 +1419,13 @@ package pfcp
 //@   requires s != nil && s.trToCh != nil && !closed(s.trToCh)
 //@   modifies chanstate(s.trToCh)
 //@   serves C06 C09 C07
+// [closing] (C17, one link of 'Stop stops'): the receiver returns only after a failed read (Stop closes the socket), and the
+// last thing it queues before returning is the close marker - an empty ReceivePacket - on which the event loop ends.
 //@ func (s *PfcpServer) receiver(wg *sync.WaitGroup)
 //@   requires s != nil && s.conn != nil && s.rcvCh != nil && !closed(s.rcvCh) && wg != nil
+//@   ensures [closing] len(chat(s.rcvCh, chtail(s.rcvCh) - 1).Buf) == 0
 //@   modifies chanstate(s.rcvCh)
-//@   serves C07
+//@   serves C07 C17
 //@   loop for():
 //@     modifies chanstate(s.rcvCh), buf[_]
 //@     invariant [open] s != nil && s.conn != nil && s.rcvCh != nil && !closed(s.rcvCh)
